@@ -94,6 +94,52 @@ Theorem eq_sym_refuted : forall lib,
 Proof. exact eq_sym_refuted_l. Qed.
 Print Assumptions eq_sym_partial.
 
+(* the classification by operand kinds is EXACT: on every one of the 30 recorded ordered kind pairs
+   there are well-formed operands of exactly those kinds on which == gives different answers in
+   the two orders — for every library behaviour (the float~string witness is NaN against its own
+   text).  Together with eq_sym_partial: == is symmetric on all operands of kinds (a, b) if and
+   only if eq_sym_known a b = false. *)
+Theorem eq_sym_refuted_each : forall lib a b, eq_sym_known a b = true ->
+  let p := sym_witness lib a b in
+  ty_of (fst p) = a /\ ty_of (snd p) = b /\ wf (fst p) = true /\ wf (snd p) = true /\
+  exists x, eq lib false (fst p) (snd p) = Val (VBool x) /\ eq lib false (snd p) (fst p) = Val (VBool (negb x)).
+Proof. exact eq_sym_witness_l. Qed.
+Theorem eq_sym_exact : forall lib a b,
+  eq_sym_known a b = false <->
+  (forall l r, ty_of l = a -> ty_of r = b -> eq lib false l r = eq lib false r l).
+Proof.
+  intros lib a b. split.
+  - intros H l r Hl Hr. apply eq_sym_partial; [rewrite Hl, Hr; exact H | discriminate].
+  - intro H. destruct (eq_sym_known a b) eqn:E; [|reflexivity]. exfalso.
+    destruct (eq_sym_witness_l lib a b E) as [A [B [_ [_ [x [X Y]]]]]].
+    rewrite (H _ _ A B) in X. rewrite X in Y. injection Y as Y. destruct x; discriminate.
+Qed.
+Print Assumptions eq_sym_refuted_each.
+Print Assumptions eq_sym_exact.
+
+(* coherence of < <= > >= beyond the property's wording, characterised exactly by operand kinds.
+   Within one dispatch: < and > exclude each other, < implies <=.  The MIRROR law
+   (a OP b) = (b flipped-OP a) holds on all operands of kinds (a, b) iff mirror_known a b = false:
+   proved on the complement, refuted by a witness on each of the 18 recorded ordered pairs (null /
+   number, null / string, bool / string, number / string, string / array / object: the node
+   dispatches on the LEFT operand's kind).  These mixed-kind comparisons are outside the
+   documented domain; the statements describe the code as it is. *)
+Theorem lt_gt_exclusive : forall lib l r, rel lib RLt l r = Val (VBool true) -> rel lib RGt l r = Val (VBool false).
+Proof. exact rel_antisym. Qed.
+Theorem lt_implies_le : forall lib l r, rel lib RLt l r = Val (VBool true) -> rel lib RLe l r = Val (VBool true).
+Proof. exact lt_implies_le_l. Qed.
+Theorem rel_mirror_partial : forall lib o l r,
+  mirror_known (ty_of l) (ty_of r) = false -> rel lib o l r = rel lib (flip o) r l.
+Proof. exact rel_mirror_partial_l. Qed.
+Theorem rel_mirror_refuted_each : forall lib a b, mirror_known a b = true ->
+  let '(l, r, o) := mirror_witness lib a b in
+  ty_of l = a /\ ty_of r = b /\ wf l = true /\ wf r = true /\
+  exists x, rel lib o l r = Val (VBool x) /\ rel lib (flip o) r l = Val (VBool (negb x)).
+Proof. exact rel_mirror_witness_l. Qed.
+Print Assumptions lt_implies_le.
+Print Assumptions rel_mirror_partial.
+Print Assumptions rel_mirror_refuted_each.
+
 (* "<=> agrees with < and >" — on EVERY operand pair (all kinds, nil included): since the fix
    a2cefe8 the node computes <=> from the relational nodes *)
 Theorem cmp_lt_gt : forall lib l r,
